@@ -118,7 +118,7 @@ fn check(id: &str, args: &[String]) -> i32 {
         cfg.secs = secs * 0.6;
         let h = mharness::Managed;
         let r = run_batch(&h, &cfg);
-        if r.found.is_some() || r.harness_error.is_some() {
+        if r.found.is_some() || r.harness_error.is_some() || !r.unreproducible.is_empty() {
             return finish(&h, id, &tier, seed, &m, r, real_vs_stub_managed(), assumptions_managed());
         }
         let hu = uworld::Unmanaged;
